@@ -18,6 +18,7 @@ EXPLANATION = (
     "find_events can panic on filter/event contents the engine understands. Exactness and plan-independence of the "
     "answer over all histories are not decided.")
 EXPLANATION += " Also decided: every index range scan of a query is bounded by filter.until() itself and by filter.since() or the raised lower bound."
+EXPLANATION += " Also decided: the offset of every event a plan inserts is an index iterator's entry or the id index's entry for a filter id - a plan fed by a single-answer lookup of the store is reported."
 ASSUMPTIONS = ["an LMDB range over a key with a reversed-time component yields newest first"]
 
 FIND = "pocket_db::Store::find_events"
@@ -61,6 +62,38 @@ def run(ctx):
         s.add("S-DOM", fn, "screen-before-insert", "line-plan@%s" % _plan(an, b), info["sp"], PROVED if oks else VIOLATION,
               "insert is reached only through screen(that event) == true" if oks else
               "an event can be inserted into the result without having passed the screening function", b)
+    # ---------------------------------------------------------------- 1b. where a plan's candidates come from
+    # Every plan enumerates its candidates from an index: the offset of each event it inserts is the entry of an index
+    # iterator, or the id index's entry for one of the filter's ids.  A plan that takes its candidate from a single-answer
+    # lookup of the store (the current event at an address, ...) sees at most one event and only what that lookup's own,
+    # narrower, matching admits: other events that match the filter are missed, and the answer depends on the plan.
+    from ..srules import leaf_values
+    for b, info in ins:
+        ev = info["args"][1]
+        leaves = leaf_values(an, ev) or [ev]
+        verdict, why = PROVED, "the event inserted is fetched at an offset taken from an index iterator or from the id index"
+        for l in leaves:
+            fetch = find_values(l, lambda x: x[0] == "call" and x[1].endswith("::get_event_by_offset"))
+            if fetch:
+                offv = fetch[0][2][1]
+                from_index = contains_value(offv, lambda x: x[0] == "call" and (x[1].endswith("::next") or x[1].endswith("::get_offset_by_id")))
+                if not from_index:
+                    deep = any(contains_value(l2, lambda x: x[0] == "call" and (x[1].endswith("::next") or x[1].endswith("::get_offset_by_id")))
+                               for l2 in leaf_values(an, offv))
+                    if not deep and verdict == PROVED:
+                        verdict, why = UNDECIDED, "where the offset of the inserted event comes from was not recognised: not decided"
+                continue
+            other = find_values(l, lambda x: x[0] == "call" and x[1].startswith("pocket_db::") and
+                                not x[1].endswith("::get_event_by_offset"))
+            if other:
+                verdict = VIOLATION
+                why = ("a plan takes its candidate from %s, a lookup that yields at most one event chosen by its own matching, "
+                       "instead of enumerating an index: events that match the filter but not that lookup are missed, and the "
+                       "answer depends on which plan serves the filter" % s.nice(other[0][1]))
+                break
+            if verdict == PROVED:
+                verdict, why = UNDECIDED, "where the inserted event comes from was not recognised: not decided"
+        s.add("S-WHO", fn, "plan-candidates-from-index", "line-plan@%s" % _plan(an, b), info["sp"], verdict, why, b)
     # the screen is called only for matching events (so `redacted` means a *matching* event was redacted)
     scr = [(b, i) for b, i in an.calls() if (i["callee"] or "") in closure_paths]
     ctx.floor("C05.screen-call-sites", len(scr), 7)
